@@ -209,7 +209,7 @@ Qed.
 Lemma step_inv : forall dflt st o, (dflt = true -> default_duration o = true) -> inv dflt st -> inv dflt (step st o).
 Proof.
   intros dflt st o Hdd Hinv. pose proof Hinv as [Hlr Hg].
-  destruct o as [hg hsn hsc hf | level g dur snaps | level t snaps | g snaps | s | rs | rq rs | au cs rs | cs sl | s | d]; unfold step.
+  destruct o as [hg hsn hsc hf | level g dur snaps | level t snaps | g snaps | s | rs | rq rs | au cs rs | cs sl | av | qs qy | gh | s | d]; unfold step.
   - exact Hinv.
   - split; [exact Hlr|]. cbn [st_gating st_lastref st_now]. apply hold_refresh_inv; [exact Hinv|].
     intros Hdf Hgs. specialize (Hdd Hdf). cbn [default_duration] in Hdd.
@@ -221,6 +221,9 @@ Proof.
   - split; [exact Hlr|]. cbn [st_gating st_lastref st_now]. eapply sub_gating_inv; [apply reset_many_sub | exact Hg].
   - split; [exact Hlr|]. cbn [st_gating st_lastref st_now]. eapply sub_gating_inv; [apply reset_many_sub | exact Hg].
   - split; [exact Hlr|]. cbn [st_gating st_lastref st_now]. eapply sub_gating_inv; [apply reset_many_sub | exact Hg].
+  - exact Hinv.
+  - exact Hinv.
+  - exact Hinv.
   - exact Hinv.
   - split; cbn [st_gating st_lastref st_now].
     + intros x. destruct (x =? s)%N; [lia | apply Hlr].
@@ -259,7 +262,7 @@ Qed.
 Lemma step_first : forall st o s g h,
   st_gating (step st o) s g = Some h -> h_first h = first_of (st_now st) (st_gating st) s g.
 Proof.
-  intros st o s g h. destruct o as [hg hsn hsc hf | level g0 dur snaps | level t snaps | g0 snaps | s0 | rs | rq rs | au cs rs | cs sl | s0 | d]; unfold step;
+  intros st o s g h. destruct o as [hg hsn hsc hf | level g0 dur snaps | level t snaps | g0 snaps | s0 | rs | rq rs | au cs rs | cs sl | av | qs qy | gh | s0 | d]; unfold step;
     cbn [st_gating]; intros H.
   - unfold first_of. rewrite H. reflexivity.
   - eapply hold_refresh_first; exact H.
@@ -269,6 +272,9 @@ Proof.
   - apply reset_many_sub in H. unfold first_of. rewrite H. reflexivity.
   - apply reset_many_sub in H. unfold first_of. rewrite H. reflexivity.
   - apply reset_many_sub in H. unfold first_of. rewrite H. reflexivity.
+  - unfold first_of. rewrite H. reflexivity.
+  - unfold first_of. rewrite H. reflexivity.
+  - unfold first_of. rewrite H. reflexivity.
   - unfold first_of. rewrite H. reflexivity.
   - unfold first_of. rewrite H. reflexivity.
   - unfold first_of. rewrite H. reflexivity.
@@ -422,7 +428,7 @@ Qed.
 Lemma step_sys_untouched : forall st o s, sys_untouched s o = true ->
   st_gating (step st o) s system = st_gating st s system.
 Proof.
-  intros st o s H. destruct o as [hg hsn hsc hf | level g dur snaps | level t snaps | g snaps | s0 | rs | rq rs | au cs rs | cs sl | s0 | d]; unfold step; cbn [st_gating];
+  intros st o s H. destruct o as [hg hsn hsc hf | level g dur snaps | level t snaps | g snaps | s0 | rs | rq rs | au cs rs | cs sl | av | qs qy | gh | s0 | d]; unfold step; cbn [st_gating];
     try reflexivity; cbn [sys_untouched] in H.
   - assert (Hc : system <> g \/ ~ In s snaps).
     { apply orb_prop in H. destruct H as [H|H]; [left; intros <-; discriminate | right; rewrite <- mem_In; destruct (mem s snaps); [discriminate | discriminate]]. }
@@ -580,6 +586,49 @@ Proof.
   destruct He as [g [_ Hg]]. destruct (N.eq_dec g system) as [->|Hne]; [left; exact Hg|].
   right. exact (any_90d lr0 now0 ops Hlr 0%N s g Hne Hg).
 Qed.
+
+(* ------------------------------------------------------------------ the system-wide hold (core refresh.hold) *)
+Theorem all_held_blocks_auto_refresh : forall v st holders cands,
+  all_held v (st_now st) = true -> auto_refresh_targets v st holders cands = [].
+Proof. intros v st holders cands H. unfold auto_refresh_targets. rewrite H. reflexivity. Qed.
+
+Theorem all_held_spec : forall now,
+  all_held None now = false /\ all_held (Some None) now = true /\ forall t, all_held (Some (Some t)) now = (now <? t).
+Proof. intros. repeat split. Qed.
+
+(* nothing but setting the option changes it: after `forever` every later auto-refresh is blocked *)
+Lemma allhold_after_untouched : forall ops v,
+  (forall o, In o ops -> forall w, o <> SetAllHold w) -> allhold_after v ops = v.
+Proof.
+  unfold allhold_after. induction ops as [|o r IH]; intros v H; cbn [fold_left]; [reflexivity|].
+  rewrite IH; [|intros o' Hin; apply H; right; exact Hin].
+  destruct o; cbn [allhold_step]; try reflexivity. exfalso. eapply (H _ (or_introl eq_refl)). reflexivity.
+Qed.
+
+Theorem forever_blocks_every_later_auto_refresh : forall ops v st holders cands,
+  (forall o, In o ops -> forall w, o <> SetAllHold w) ->
+  auto_refresh_targets (allhold_after v (SetAllHold (Some None) :: ops)) (hrun st (SetAllHold (Some None) :: ops)) holders cands = [].
+Proof.
+  intros ops v st holders cands H. apply all_held_blocks_auto_refresh.
+  unfold allhold_after. cbn [fold_left allhold_step]. fold (allhold_after (Some None) ops).
+  rewrite (allhold_after_untouched ops (Some None) H). reflexivity.
+Qed.
+
+(* a snap is left out of a scheduled auto-refresh when the system-wide hold is in force or one of its holds is
+   (C15_held_not_refreshed extended); when neither, it goes on *)
+Theorem auto_refresh_targets_spec : forall v st holders cands s,
+  In s (auto_refresh_targets v st holders cands) <->
+  all_held v (st_now st) = false /\ In s cands /\ forall g, In g holders -> effective st 0 s g = false.
+Proof.
+  intros v st holders cands s. unfold auto_refresh_targets. destruct (all_held v (st_now st)).
+  - split; [intros [] | intros [H _]; discriminate].
+  - rewrite refresh_targets_spec. tauto.
+Qed.
+
+(* the code as it is: a refresh of all snaps asked by the user, and a refresh of named snaps, do not look at the
+   system-wide hold at all (refresh_targets does not mention it); SnapHolds reports system for every snap under it *)
+Theorem snap_holds_under_all_hold : forall v st s, all_held v (st_now st) = true -> snap_holds_system v st s = true.
+Proof. intros v st s H. unfold snap_holds_system. rewrite H. apply orb_true_r. Qed.
 
 (* ------------------------------------------------------------------ hook runs *)
 Lemma run_app : forall l1 l2 st, run st (l1 ++ l2) = run (run st l1) l2.
